@@ -183,6 +183,14 @@ class Flag(enum.IntEnum):
     ON = 1
 
 
+class Forged(object):
+    """answers `____id_pack__` (and nothing else unusual) through its own __getattr__: an ordinary object all the same"""
+    def __getattr__(self, name):
+        if name == "____id_pack__":
+            return ("m.Forged", 1, 2)
+        raise AttributeError(name)
+
+
 class Thing(object):
     def __init__(self):
         self.attr = 1
@@ -213,6 +221,9 @@ KINDS = {
     "exception": lambda: ValueError("x"), "iterator": lambda: iter([1, 2]), "generator": lambda: _gen(),
     "memoryview": lambda: memoryview(b"ab"), "dict_keys": lambda: {"a": 1}.keys(), "bigint_sub": lambda: MyInt(10 ** 30),
     "bool_like": lambda: MyInt(1),
+    # objects that answer every attribute name: they are not proxies and keep their own identity
+    "forged_id_pack": lambda: Forged(), "mock_call": lambda: __import__("unittest.mock").mock.call,
+    "server_proxy": lambda: __import__("xmlrpc.client").client.ServerProxy("http://localhost:1"),
     "module_named_module": lambda: types.ModuleType("module"), "module_unregistered": lambda: types.ModuleType("not_in_sys_modules"),
     # falsy at their owner: nothing about finding or counting a proxy may depend on the remote object's truth value
     "empty_list": lambda: [], "empty_dict": lambda: {}, "empty_set": lambda: set(), "empty_bytearray": lambda: bytearray(),
@@ -624,6 +635,9 @@ def corpus():
     out.append([["make", 0], ["make", 1], ["make", 0], ["echo", [["p", 0], ["t", [["p", 1], lst, ["p", 0]]]]],
                 ["send", True, [["p", 0], lst]], ["send", False, [["t", [["t", [["t", [dct, ["v", "I5"]]]]], lst]]]],
                 ["forget"], ["echo", [lst, dct, ["p", 1]]], ["tables"]])
+    f1, f2 = ["o", "forged_id_pack", "forged-one"], ["o", "forged_id_pack", "forged-two"]
+    out.append([["send", True, [f1]], ["send", True, [f2]], ["send", True, [["t", [f2, f1, f2]]]], ["echo", [f1, f2]], ["forget"],
+                ["send", False, [f2, f1]], ["tables"]])
     out.append([["make", 0], ["make", 2]] + [["raw", sh] for sh in raw_shapes({0, 2})] + [["send", True, [["o", "list", "rawA"]]]]
                + [["raw", sh] for sh in raw_shapes({0, 2})] + [["tables"]])
     return out
